@@ -1128,8 +1128,17 @@ where
                     let _ = done.send(result);
                     return true; // signal batch_processor to exit — disk state is corrupted
                 }
+                // The old tail from `truncate_from` is gone: nothing above truncate_from - 1 is
+                // durable any more. Without lowering the mark, entries appended later at or below
+                // the stale value fall outside the (durable_index, max_index] persist window and
+                // flush() reports them durable although they never reach the store.
+                this.durable_index.fetch_min(truncate_from.saturating_sub(1), Ordering::AcqRel);
                 if max_idx > 0 {
-                    *pending_max = (*pending_max).max(max_idx);
+                    // Make the replacement durable now: the caller waits on `done` for exactly that.
+                    if let Err(e) = this.advance_durable_after_write(max_idx).await {
+                        error!("IOTask::ReplaceRange fsync failed: {e:?}");
+                        *pending_max = (*pending_max).max(max_idx);
+                    }
                 }
                 let _ = done.send(result);
                 false
